@@ -86,6 +86,20 @@ def loops():
         return [p.forin(["v"], [p.call(_co(p, "wrap"), [gen])], p.block([p.if_([p.bin("==", p.bin("%", p.id("v"), p.num(3)), p.num(0))], [p.block([p.emit([p.id("v")])])])]))]
     mk("generator_in_forin", generator_forin)
 
+    def host_cancels_inside_coroutine(p):     # the context is cancelled by the host while a coroutine loops forever
+        body = p.func([], p.block([p.emit([p.str("in-co")]), p.callstat(p.call(p.id("gcancel"), [])),
+                                   p.while_(p.true(), p.block(tick(p)))]))
+        return [p.local(["n"], [p.num(0)]), p.emit([p.str("start")]), p.callstat(p.call(p.call(_co(p, "wrap"), [body]), [])), p.emit([p.str("unreachable")])]
+    mk("host_cancels_inside_coroutine", host_cancels_inside_coroutine)
+
+    def host_cancels_inside_nested_coroutines(p):
+        inner = p.func([], p.block([p.callstat(p.call(p.id("gcancel"), [])), p.while_(p.true(), p.block(tick(p)))]))
+        outer = p.func([], p.block([p.emit([p.str("outer")]), p.local(["c2"], [p.call(_co(p, "create"), [inner])]),
+                                    p.emit([p.call(_co(p, "resume"), [p.id("c2")])]), p.while_(p.true(), p.block(tick(p)))]))
+        return [p.local(["n"], [p.num(0)]), p.local(["c1"], [p.call(_co(p, "create"), [outer])]),
+                p.emit([p.call(_co(p, "resume"), [p.id("c1")])]), p.while_(p.true(), p.block(tick(p)))]
+    mk("host_cancels_inside_nested_coroutines", host_cancels_inside_nested_coroutines)
+
     def terminating(p):
         return [p.local(["n"], [p.num(0)]), p.fornum("i", p.num(1), p.num(12), 0, p.block(tick(p, every=2))),
                 p.emit([p.str("done"), p.call(p.id("pcall"), [p.func([], p.block([p.ret([p.num(1)])]))])]), p.ret([p.id("n")])]
